@@ -81,6 +81,7 @@ structure St where
   exportL : List Name := []           -- SecNode.export
   ioDict : List (String × Name) := []
   inited : List Name := []            -- _isinitialized, in order of completion
+  failed : List Name := []            -- initFailed: earlyInit or initModule raised
   stack : List Name := []             -- modules whose initialisation is in progress
   edges : List (Name × Name) := []    -- attachedModules: (user, attached)
   groups : List (Name × Name) := []   -- polledModules: (thread owner, member), in order of registration
@@ -165,7 +166,10 @@ def resolve (rec : St → Name → St × Res) (u : Name) (att : Att) (st : St) :
     | (st, .raised cls) => (st, .raised cls)
     | (st, .none) => (st, .raised "ConfigError")
     | (st, .ok d) =>
-      if kindOk att.kind (clsOf st d) then (addEdge st u d, .mod d) else (st, .raised "ConfigError")
+      if kindOk att.kind (clsOf st d) then
+        if st.failed.contains d then (st, .raised "ConfigError")      -- the attached module failed to initialise
+        else (addEdge st u d, .mod d)
+      else (st, .raised "ConfigError")
 
 def findAtt (c : ModCfg) (a : String) : Option Att := c.atts.find? (fun x => x.name == a)
 
@@ -223,10 +227,13 @@ def initBody (rec : St → Name → St × Res) (c : ModCfg) : Step :=
 
 def cfgOf (st : St) (m : Name) : ModCfg := (findCfg st.mcfg m).getD default
 
+def noteFailure (st : St) (m : Name) (exc : Option String) : St :=
+  match exc with
+  | some cls => { st with errors := st.errors ++ [⟨"init", m, cls⟩], failed := st.failed ++ [m] }
+  | none => st
+
 def finishInit (st : St) (m : Name) (exc : Option String) : St :=
-  let st := match exc with
-    | some cls => addErr st ⟨"init", m, cls⟩
-    | none => st
+  let st := noteFailure st m exc
   { st with stack := st.stack.erase m, inited := st.inited ++ [m] }
 
 /-- `SecNode.get_module` (secnode.py:70-97).  Termination is explicit: the recursion (through attachments) is bounded
@@ -240,7 +247,8 @@ def getModule : Nat → St → Name → St × Res
       if st.inited.contains m then (st, .ok m)
       else if st.stack.contains m then (st, .raised "ConfigError")
       else
-        match initBody (getModule fuel) (cfgOf st m) { st with stack := m :: st.stack } with
+        -- the module object: its configuration, under its own name (`cls(modulename, …)`)
+        match initBody (getModule fuel) { cfgOf st m with name := m } { st with stack := m :: st.stack } with
         | (st, exc) => (finishInit st m exc, .ok m)
     | (st, r) => (st, r)
 
@@ -428,9 +436,12 @@ def getSortedModules (mods : List Name) (att : Name → List Name) (pick : List 
 
 def attOf (edges : List (Name × Name)) (u : Name) : List Name := (edges.filter (fun e => e.1 == u)).map (·.2)
 
-/-- `SecNode.shutdown_modules` (secnode.py:261-273) -/
-def shutdownLog (mods : List Name) (edges : List (Name × Name)) (pick : List Name → Nat) : List Ev :=
-  mods.map Ev.stopPoll ++ (getSortedModules mods (attOf edges) pick).map Ev.shutdown
+/-- `SecNode.shutdown_modules` (secnode.py:261-273), `stopPollThread`/`joinPollThread` (modulebase.py:629-647) -/
+def shutdownLog (mods : List Name) (threads : List Name) (edges : List (Name × Name)) (pick : List Name → Nat) :
+    List Ev :=
+  mods.map Ev.stopPoll ++                                      -- first loop: stopPollThread on every module
+  (mods.filter threads.contains).map Ev.stopPoll ++            -- joinPollThread calls it again where a thread exists
+  (getSortedModules mods (attOf edges) pick).map Ev.shutdown
 
 structure Run where
   st : St
@@ -441,7 +452,7 @@ deriving Repr
 def run (cfg : Cfg) (fuel : Nat) (sched : List Act) (pick : List Name → Nat) : Run :=
   let st := startup cfg fuel
   if st.errors.isEmpty then
-    ⟨st, st.log ++ waitPhase st sched ++ [Ev.shutdownbegin] ++ shutdownLog st.modules st.edges pick⟩
+    ⟨st, st.log ++ waitPhase st sched ++ [Ev.shutdownbegin] ++ shutdownLog st.modules (threadsOf st) st.edges pick⟩
   else ⟨st, st.log⟩
 
 end Frappy.Lifecycle
